@@ -1,7 +1,7 @@
 (* PipelineRandFacts.v -- lemmas about PipelineRand.v (the whole-program model of cnfgen with randomness). *)
 From Coq Require Import ZArith List Bool Ascii String Lia.
 From Cnfgen Require Import Sem Comb Linear IR Text Dimacs OpbText Cli GraphSpec GText GraphIO GraphGen Subst Shuffle FamTab FamFast
-     C02Common Rand ShuffleMain ShuffleMainFacts DimacsFacts PipelineGraph PipelineGraphFacts Pipeline PipelineFacts PipelineRand.
+     C02Common Rand RandFacts GraphGenFacts ShuffleMain ShuffleMainFacts DimacsFacts PipelineGraph PipelineGraphFacts Pipeline PipelineFacts PipelineRand.
 Import ListNotations.
 Open Scope Z_scope.
 
@@ -247,4 +247,210 @@ Proof.
   - rewrite cnfgen_main_fast_eq. intros H. injection H as H _.
     destruct (cnfgen_main_roundtrip argv text H) as (n & F & _ & -> & Hn & HR & RB).
     exists (pl_opb_of argv), n, F. now repeat split.
+Qed.
+
+(* ------------------------------------------------------------------ *)
+(* 5. runs against a generator                                         *)
+(* ------------------------------------------------------------------ *)
+Section Gen.
+  Context {G : Type} (bits : Z -> G -> Z * G).
+
+  Lemma plr_gen_loop_replay f : forall fuel g o r o', plr_gen_loop bits fuel f g o = Some (r, o') ->
+    f o' = r /\ (forall q, r <> PdEnd q) /\ exists ext, o' = o ++ ext.
+  Proof.
+    induction fuel as [|fl IH]; intros g o r o'; cbn [plr_gen_loop]; [discriminate|].
+    destruct (f o) as [a rest|[k]|] eqn:E.
+    - intros H. injection H as <- <-. repeat split; [exact E|discriminate|exists []; now rewrite app_nil_r].
+    - destruct (bits k g) as [v g']. intros H. destruct (IH g' (o ++ [v]) r o' H) as (A & B & ext & C).
+      repeat split; [exact A|exact B|]. exists (v :: ext). rewrite C, <- app_assoc. reflexivity.
+    - intros H. injection H as <- <-. repeat split; [exact E|discriminate|exists []; now rewrite app_nil_r].
+  Qed.
+
+  Theorem plr_run_is_replay seed_fn fuel argv g0 r oracle :
+    cnfgen_run_rand bits seed_fn fuel argv g0 = Some (r, oracle) ->
+    cnfgen_main_rand argv oracle = r /\ forall q, r <> PdEnd q.
+  Proof.
+    unfold cnfgen_run_rand. intros H. apply plr_gen_loop_replay in H as (A & B & _). now split.
+  Qed.
+
+  Theorem plr_seeded_runs_agree seed_fn fuel argv s : plr_seed argv = Some s ->
+    forall g1 g2, cnfgen_run_rand bits seed_fn fuel argv g1 = cnfgen_run_rand bits seed_fn fuel argv g2.
+  Proof. intros H g1 g2. unfold cnfgen_run_rand. now rewrite H. Qed.
+End Gen.
+
+(* ------------------------------------------------------------------ *)
+(* 6. the stream is read front to back: frames                         *)
+(* ------------------------------------------------------------------ *)
+Definition plr_framed {A} (f : list Z -> plr_dr A) : Prop :=
+  forall o a r t, f o = PdOk a r -> f (o ++ t) = PdOk a (r ++ t).
+
+Lemma plr_randbelow_framed n : plr_framed (plr_randbelow n).
+Proof.
+  intros o a r t. unfold plr_randbelow. destruct (shm_randbelow n o) as [x o'| |] eqn:E; try discriminate.
+  intros H. injection H as <- <-. now rewrite (shm_randbelow_app n t o x o' E).
+Qed.
+
+Lemma plr_belows_framed : forall bs, plr_framed (plr_belows bs).
+Proof.
+  induction bs as [|b bs IH]; intros o a r t; cbn [plr_belows].
+  - intros H. now injection H as <- <-.
+  - destruct (plr_randbelow b o) as [x o1| |] eqn:E; try discriminate.
+    rewrite (plr_randbelow_framed b o x o1 t E).
+    destruct (plr_belows bs o1) as [xs o2| |] eqn:E2; try discriminate.
+    rewrite (IH o1 xs o2 t E2). intros H. now injection H as <- <-.
+Qed.
+
+Lemma plr_belows_shm bs o rs rest : plr_belows bs o = PdOk rs rest <-> shm_draws bs o = DrOk rs rest.
+Proof.
+  revert o rs rest. induction bs as [|b bs IH]; intros o rs rest; cbn [plr_belows shm_draws].
+  - split; intros H; now injection H as <- <-.
+  - unfold plr_randbelow. destruct (shm_randbelow b o) as [x o1| |]; try (split; discriminate).
+    specialize (IH o1). destruct (plr_belows bs o1) as [xs o2| |]; destruct (shm_draws bs o1) as [ys o3| |];
+      try (split; discriminate);
+      try (exfalso; match goal with
+                    | H : forall rs rest, PdOk ?a ?b = PdOk rs rest <-> _ |- _ => destruct (H a b) as [K _]; specialize (K eq_refl); discriminate
+                    | H : forall rs rest, _ <-> DrOk ?a ?b = DrOk rs rest |- _ => destruct (H a b) as [_ K]; specialize (K eq_refl); discriminate
+                    end).
+    destruct (IH xs o2) as [K _]. specialize (K eq_refl). injection K as <- <-.
+    split; intros H; now injection H as <- <-.
+Qed.
+
+Lemma plr_shuffle_framed a b c n F : plr_framed (plr_shuffle a b c n F).
+Proof.
+  intros o r rest t. unfold plr_shuffle.
+  destruct (plr_belows _ o) as [rs o1| |] eqn:E; try discriminate.
+  rewrite (plr_belows_framed _ o rs o1 t E).
+  destruct (shm_args a b c n (len F) rs) as [[fl pm] cp].
+  destruct (shuffle n F fl pm cp); intros H; now injection H as <- <-.
+Qed.
+
+Lemma plr_tstep_framed t n F : plr_framed (plr_tstep t n F).
+Proof.
+  destruct t as [d|a b c]; cbn [plr_tstep].
+  - intros o r rest t H. now injection H as <- <-.
+  - apply plr_shuffle_framed.
+Qed.
+
+Lemma plr_chain_framed : forall ts acc, plr_framed (plr_chain ts acc).
+Proof.
+  induction ts as [|t ts IH]; intros acc o r rest e; cbn [plr_chain].
+  - intros H. now injection H as <- <-.
+  - destruct acc as [n F| | |]; try (intros H; now injection H as <- <-).
+    destruct (plr_tstep t n F o) as [r1 o1| |] eqn:E; try discriminate.
+    rewrite (plr_tstep_framed t n F o r1 o1 e E). apply IH.
+Qed.
+
+(* the families whose draws are read by the model itself *)
+Lemma plr_stage_family_framed c : (forall x k n m p, c <> RcRand x k n m p) -> plr_framed (plr_stage_family c).
+Proof.
+  intros NR. destruct c as [d|x k n m p|mode n E]; cbn [plr_stage_family].
+  - intros o r rest t H. now injection H as <- <-.
+  - now destruct (NR x k n m p).
+  - intros o r rest t. cbn [plr_stage_family]. destruct (plr_belows (plr_charge_bounds mode n) o) as [rs o1| |] eqn:Eb; try discriminate.
+    rewrite (plr_belows_framed _ o rs o1 t Eb). intros H. now injection H as <- <-.
+Qed.
+
+(* one transformation reads its own part of the stream *)
+Theorem plr_chain_split t ts n F oa ob r :
+  plr_tstep t n F oa = PdOk r [] -> plr_chain (t :: ts) (FrOk n F) (oa ++ ob) = plr_chain ts r ob.
+Proof. intros H. cbn [plr_chain]. now rewrite (plr_tstep_framed t n F oa r [] ob H). Qed.
+
+(* THE ORDER OF THE DRAWS: (graph argument, sampled while parsing) ++ (family) ++ (transformations, left to right).
+   "reads exactly o" is stated with the frame: whatever follows is left unread *)
+Theorem plr_draw_order argv o1 o2 o3 c g ts F :
+  plr_uses_random argv = true ->
+  (forall t, plr_stage_parse (pl_chunks_of argv) (o1 ++ t) = PdOk (PlOk c) t) ->
+  plr_gen_of (plr_head_of c) = Some g -> pl_all_some (plr_ts c) = Some ts ->
+  (forall t, plr_stage_family g (o2 ++ t) = PdOk F t) ->
+  cnfgen_main_rand argv (o1 ++ o2 ++ o3) =
+    match plr_chain ts F o3 with
+    | PdOk r rest => PdOk (plr_finish c r) rest
+    | PdEnd q => PdEnd q
+    | PdBad => PdBad
+    end.
+Proof.
+  intros U P Hg Ht Fm. unfold cnfgen_main_rand. rewrite U. unfold plr_main. rewrite P.
+  unfold plr_after_parse. rewrite Hg, Ht, Fm. reflexivity.
+Qed.
+
+(* a stage that is framed and reads o to its end satisfies the hypothesis of plr_draw_order *)
+Lemma plr_framed_exact {A} (f : list Z -> plr_dr A) o a : plr_framed f -> f o = PdOk a [] -> forall t, f (o ++ t) = PdOk a t.
+Proof. intros Fr H t. exact (Fr o a [] t H). Qed.
+
+(* the bounds of the draws of each stage are functions of the command line and of the results of the stages before *)
+Theorem plr_stage_bounds :
+  (forall a b c n F o, plr_shuffle a b c n F o =
+     match plr_belows (shm_bounds a b c n (len F)) o with
+     | PdOk rs o' => let '(fl, pm, cp) := shm_args a b c n (len F) rs in
+                     match shuffle n F fl pm cp with ShOk n' out => PdOk (plr_checked n' out) o' | _ => PdOk FrErr o' end
+     | PdEnd q => PdEnd q
+     | PdBad => PdBad
+     end) /\
+  (forall mode n E o, plr_stage_family (RcTseitin mode n E) o =
+     match plr_belows (repeat 2 (Z.to_nat (if mode =? 0 then n else n - 1))) o with
+     | PdOk rs o' => PdOk (pl_build_fast (FcTseitin (Some (plr_charges mode n rs)) n E)) o'
+     | PdEnd q => PdEnd q
+     | PdBad => PdBad
+     end) /\
+  (forall l r d, exists calls, forall o, plr_gen (GCGlrd l r d) o = plr_exact calls (gg_left_regular l r d) o) /\
+  (forall G k, exists calls, forall o, plr_step G (SPlantClique k) o = plr_exact calls (gg_plantclique G k) o) /\
+  (forall G a b, exists calls, forall o, plr_step G (SPlantBiclique a b) o = plr_exact calls (gg_plantbiclique G a b) o) /\
+  (forall G k, exists calls, forall o, plr_step G (SSplitEdges k) o = plr_exact calls (gg_split_edges G k) o).
+Proof.
+  repeat split; try reflexivity; intros; eexists; intros; reflexivity.
+Qed.
+
+(* ------------------------------------------------------------------ *)
+(* 7. C13 / C15 carried to the tool                                    *)
+(* ------------------------------------------------------------------ *)
+Lemma plr_checked_inv nv F n F' : plr_checked nv F = FrOk n F' -> n = nv /\ F' = F.
+Proof. unfold plr_checked. destruct (_ && _); [|discriminate]. intros H. now injection H as <- <-. Qed.
+
+(* randkcnf k n m [--plant]: exactly m pairwise distinct clauses, each on k distinct variables of 1..n *)
+Theorem plr_randkcnf_shape k n m pl o nv F rest :
+  plr_rand_run false k n m pl o = PdOk (FrOk nv F) rest ->
+  nv = n /\ len F = m /\ NoDup F /\
+  (forall c, In c F -> len c = k /\ NoDup (map Z.abs c) /\ (forall l, In l c -> 1 <= Z.abs l <= n)).
+Proof.
+  unfold plr_rand_run. destruct (snd _); try discriminate.
+  destruct (rand_cmd k n m pl _) as [[[nv' F'] rest']| | |] eqn:E; try discriminate.
+  2: destruct (snd _); discriminate.
+  intros H. injection H as H _. apply plr_checked_inv in H as [-> ->].
+  assert (S : exists planted s, random_kcnf k n m planted s = ROk (nv', F', rest')).
+  { destruct pl.
+    - destruct (rand_cmd_planted k n m _ nv' F' rest' E) as (p & s1 & _ & R & _). now exists [p], s1.
+    - unfold rand_cmd in E. exists []. eexists. exact E. }
+  destruct S as (planted & s & R).
+  destruct (random_kcnf_shape_plain k n m planted s nv' F' rest' R) as (A & B & C & D).
+  split; [exact A|]. split; [exact B|]. split; [exact C|]. intros c Hc. destruct (D c Hc) as (D1 & D2 & D3 & _). split; [exact D1|]. split; [exact D2|exact D3].
+Qed.
+
+(* a clean error only when no such formula exists *)
+Theorem plr_randkcnf_error k n m o rest :
+  plr_rand_run false k n m false o = PdOk FrErr rest ->
+  n < 0 \/ m < 0 \/ k < 0 \/ k > n \/ m > len (all_clauses k n []).
+Proof.
+  unfold plr_rand_run. cbn [snd fst]. destruct (rand_cmd k n m false _) as [[[nv' F'] rest']| | |] eqn:E; try discriminate.
+  - intros H. injection H as H _. unfold plr_checked in H. destruct (_ && _); discriminate.
+  - intros _. unfold rand_cmd in E. now apply random_kcnf_verr in E.
+  - destruct (snd _); discriminate.
+Qed.
+
+Lemma plr_exact_inv {A} calls (hl : gg_stream -> gg_res (A * gg_stream)) o a o' :
+  plr_exact calls hl o = PdOk (PlOk a) o' -> exists s s', hl s = GGOk (a, s').
+Proof.
+  unfold plr_exact. destruct (hl _) as [[a' s']|e| | |] eqn:E.
+  - destruct (snd _); try discriminate. intros H. injection H as <- _. eexists. exists s'. exact E.
+  - destruct e; discriminate.
+  - discriminate.
+  - destruct (snd _); discriminate.
+  - discriminate.
+Qed.
+
+(* glrd L R d: every left vertex has degree min(R, d) *)
+Theorem plr_glrd_regular l r d o G o' : plr_gen (GCGlrd l r d) o = PdOk (PlOk G) o' ->
+  io_kind G = GioBipartite /\ io_n G = l /\ io_r G = r /\
+  forall u, 1 <= u <= l -> Z.of_nat (List.length (gio_succs G u)) = Z.min r d.
+Proof.
+  cbn [plr_gen]. intros H. apply plr_exact_inv in H as (s & s' & H). exact (left_regular_degree l r d s G s' H).
 Qed.
